@@ -20,7 +20,10 @@ RULE = ("(ip,len) pairs: ip from a boundary pool (0, 1, max, max-1, all-ones / s
         "single zero group / embedded dotted quad in the low 32 bits, each as 'a', 'a/len', 'a len', with surrounding blanks. "
         "Malformed stream: every string one edit (delete, insert, replace, transpose; alphabet = hex digits, g, ':', '.', '/', "
         "blank, tab, '%', '-', '+', '_', 'x', ARABIC-INDIC DIGIT THREE) away from a valid text, plus a hand-written list "
-        "(F16 witnesses, nine groups, two '::', ':::', long inputs around the 43-character guard, empty string). "
+        "(F16 witnesses, nine groups, two '::', ':::', long inputs around the 49-character guard (which sees the text after strip() and the blank-to-slash rewrite), empty string). "
+        "Witnesses of the repaired F33 (valid texts made longer than the guard only by blanks, full-form embedded quad of 49 characters) "
+        "with ground truth, and 50-character normalised texts that must be refused; a generated spelling whose normalised text is longer than 49 "
+        "characters (a '/0len' prefix on a six-group embedded quad) carries no ground truth. "
         "Integers: -1, 0, 1, max-1, max, max+1, 2^k, random. Copy construction of objects built from valid texts. "
         "non-trivial = accepted address with len < width, or a rejected text at edit distance one from a valid one. "
         "Regions outside the model, never generated: lone surrogates; a trailing line feed can not survive strip(), so the "
@@ -30,9 +33,13 @@ LEVEL_TEXT = ("Theorems (Lean 4, all (ip,len), no size bound): every derived val
               "ipaddress specification (network = ip AND mask, mask = 2^w - 2^(w-len), last = net OR hostmask = net + 2^(w-len) - 1, "
               "dotted-quad / exploded / compressed text round trips through the stdlib parser model), host bits are kept, integer and "
               "copy constructors build the same object; IPv4 text: every accepted spelling parses to its value (v4_text_forms) and every "
-              "accepted text IS such a spelling of the stored value, everything else raises (v4_rejects); IPv6 text: exploded spellings "
-              "parse to their value, compressed spellings only through the stdlib layer (partial), and an accepted text is consumed "
-              "completely by regex + stdlib (v6_rejects_partial). The model (its re-implementation of the stdlib parsing routines and of "
+              "accepted text IS such a spelling of the stored value, everything else raises (v4_rejects); IPv6 text: the exploded and the compressed "
+              "(RFC 5952, as printed by the stdlib) spellings, as 'a', 'a/len' or 'a len' with surrounding blanks, parse to their value "
+              "through regex automaton, blank-to-slash rewrite, the 49-character guard on the normalised text and the stdlib layer "
+              "(v6_text_forms_exploded, v6_text_forms_compressed); an accepted text is consumed completely by regex + stdlib "
+              "(v6_rejects_partial: that the address part is an RFC 4291 spelling of the stored address is a property of the stdlib "
+              "parser model and is measured, not proved); upper case, alternative '::' placements and embedded dotted quads are covered "
+              "by correspondence only. The model (its re-implementation of the stdlib parsing routines and of "
               "the two regexes included) is tied to the code by differential runs on every check, and the implementation's answers are "
               "compared to the real `ipaddress` module independently.")
 LEVEL_NOTE = ("Trusted: Lean kernel; axioms propext/Classical.choice/Quot.sound only; the correspondence harness; Python `re` and "
@@ -87,7 +94,7 @@ def v6_pool(rng):
 
 V4LENS = [0, 1, 7, 8, 9, 16, 23, 24, 30, 31, 32]
 V6LENS = [0, 1, 7, 16, 63, 64, 65, 96, 112, 126, 127, 128]
-BLANKS = ["", "", "", " ", "  ", "\t", "\n", " ", " ", " \t"]
+BLANKS = ["", "", "", " ", "  ", "\t", "\n", "      ", " \n\t  ", " ", " ", " \t"]
 SEPS = [" ", " ", "  ", "\t", " \t ", " "]
 
 
@@ -204,6 +211,22 @@ HAND6 = ["", " ", "::", ":", ":::", "::::", ":::1", "::1/64junk", "1::2::3", "1:
          "1:2:3:4:5:6:7:8/64", "1:2:3:4:5:6:7:8 64", "::1/64/64", "::1//64", "02001:db8::", "2001:db8::/032", "2001:db8::/+32", "2001:db8::/-1", "a:b:c:d:e:f:0:1"]
 
 
+# the length guard (49 characters after normalisation): F33 witnesses must be accepted, 50 characters refused
+GUARD6 = [(" ffff:ffff:ffff:ffff:ffff:ffff:ffff:ffff/128", [V6MAX, 128]),
+          ("ffff:ffff:ffff:ffff:ffff:ffff:ffff:ffff  128", [V6MAX, 128]),
+          ("   ffff:ffff:ffff:ffff:ffff:ffff:ffff:ffff \t 128   ", [V6MAX, 128]),
+          ("0000:0000:0000:0000:0000:ffff:255.255.255.255/128", [0xFFFFFFFFFFFF, 128]),
+          ("  0000:0000:0000:0000:0000:ffff:255.255.255.255  128  ", [0xFFFFFFFFFFFF, 128]),
+          ("ffff:ffff:ffff:ffff:ffff:ffff:ffff:ffff/000000128", [V6MAX, 128]),
+          ("ffff:ffff:ffff:ffff:ffff:ffff:ffff:ffff/0000000128", None),
+          ("0000:0000:0000:0000:0000:ffff:255.255.255.255/0128", None)]
+
+
+def norm_len(text):
+    """length of the text after strip() and the blank-to-slash rewrite (what the length guard sees)"""
+    return len("/".join(text.split()))
+
+
 def pick_pair(rng, pool, lens, width):
     ip = rng.choice(pool) if rng.random() < 0.6 else rng.getrandbits(width)
     ln = rng.choice(lens) if rng.random() < 0.6 else rng.randint(0, width)
@@ -221,6 +244,8 @@ def cases(rng, tier):
             yield mk("v4s", t)
         for t in HAND6:
             yield mk("v6s", t)
+        for t, truth in GUARD6:
+            yield mk("v6s", t, truth)
         for n in [-1, 0, 1, V4MAX - 1, V4MAX, V4MAX + 1, 2 ** 31, -2 ** 32]:
             yield mk("v4i", n, [n, 32] if 0 <= n <= V4MAX else None)
         for n in [-1, 0, 1, V6MAX - 1, V6MAX, V6MAX + 1, 2 ** 127, 2 ** 32, V4MAX]:
@@ -253,12 +278,11 @@ def cases(rng, tier):
         ip, ln = pick_pair(rng, p6, V6LENS, 128)
         forms = v6_forms(rng, ip, ln)
         for f in forms:
-            w = wrap(rng, f)
-            if len(w) > 43 and rng.random() < 0.8:   # longer inputs are refused unread (known finding F33): keep them rare
-                w = f
-            yield mk("v6s", w, [ip, ln])
+            # a spelling whose normalised text exceeds the 49-character guard (only '/0len' on a six-group embedded
+            # quad can) is outside the forms the class accepts: no ground truth, it must merely not be coerced
+            yield mk("v6s", wrap(rng, f), [ip, ln] if norm_len(f) <= 49 else None, near=norm_len(f) > 49)
         f = rng.choice(forms)
-        yield mk("v6c", f, [ip, ln])
+        yield mk("v6c", f, [ip, ln] if norm_len(f) <= 49 else None)
         yield mk("v6i", ip, [ip, 128])
         for _ in range(8):
             yield mk("v6s", one_edit(rng, rng.choice(forms)), near=True)
@@ -275,14 +299,6 @@ def neighbours(case, rng):
         return
     for _ in range(400):
         yield mk(case["op"], one_edit(rng, case["arg"]), near=True)
-
-
-def known_id(case, failure):
-    """F33: the 43-character guard of IPv6Obj is applied to the raw input."""
-    if case["op"] in ("v6s", "v6c") and len(case["arg"]) > 43 and failure.startswith("valid ") \
-            and failure.endswith("rejected with err:RequirementFailure"):
-        return "F33"
-    return None
 
 
 def nontrivial(case):
